@@ -179,6 +179,29 @@ def main(argv=None):
         if bad:
             rep.violation(f"a comment changes the model: {cd.err or 'component membership / layout differ'}",
                           {"kind": "direct", "text": base, "decorated": deco, "error": cd.err}, finding_key=key)
+    # ---- directed: every string of the corpus once as a trailing comment and once as a comment line, on a fixed model
+    base = "states(x=1, y=2)\nparameters(p=2)\na = p*x\ndx_dt = a - y\ndy_dt = -y + a\n"
+    try:
+        cb = load_with_timeout(drv, base)
+        base_view0 = view(cb)
+    except Exception:  # noqa: BLE001
+        cb = None
+    for cm in COMMENTS if cb is not None and cb.err is None else []:
+        variants = [("comment_line", "# " + cm + "\n" + base)]
+        if cm.strip() and not cm.startswith("#") and cm not in ("-", "--", "*"):
+            variants.append(("trailing", base.replace("a = p*x\n", "a = p*x # " + cm + "\n")))
+        for where, deco in variants:
+            rep.case(key=("corpus", where, cm), nontrivial=True)
+            rep.count("corpus:" + where)
+            try:
+                cd = load_with_timeout(drv, deco)
+            except LoadTimeout:
+                rep.violation(f"loading does not finish within 20 s when the comment {cm[:60]!r} is added ({where})",
+                              {"kind": "direct", "text": base, "decorated": deco, "decoration": where})
+                continue
+            if cd.err is not None or view(cd) != base_view0:
+                rep.violation(f"the comment {cm[:60]!r} ({where}) changes the model: {cd.err or 'component membership / layout differ'}",
+                              {"kind": "direct", "text": base, "decorated": deco, "decoration": where, "error": cd.err})
     kinds = ["comment_lines", "trailing", "annotations", "blank_lines", "indentation", "crlf", "continuation"]
     for i in range(n):
         got = family.new_case(drv, rng, gen, rep, n_comps=rng.choice([1, 2, 3]))
@@ -240,7 +263,7 @@ def main(argv=None):
         rule="random models x 3 of 7 decorations (comment lines before / between declaration blocks, trailing comments, unit / description "
              "annotations, blank lines, indentation with spaces and tabs, CRLF, line continuation inside parentheses); comment texts from a "
              "corpus of 54 strings (units, numbers, 1/0, unbalanced brackets, statements, hashes, quotes, long prose with punctuation, "
-             "non-ASCII, and the eight characters other than \\n / \\r that str.splitlines() treats as line ends, each followed by statement-like text); each decorated text is distinct; per-load time limit 20 s; three directed cases for the lexer-level known findings",
+             "non-ASCII, and the eight characters other than \\n / \\r that str.splitlines() treats as line ends, each followed by statement-like text); each decorated text is distinct; every corpus string also once as a trailing comment and once as a comment line on a fixed model; per-load time limit 20 s; three directed cases for the lexer-level known findings",
         trusted_base=["Coq 8.16.1 kernel", "extraction + ocaml/driver.ml", "Lark lexer / LALR engine (outside the model; the items come from the real parse)"],
         assumptions=["placements inside a headed expressions block, directly after a block header, and empty trailing comments are known findings and are "
                      "only exercised by the directed cases"],
